@@ -141,12 +141,14 @@ func init() {
 	// C02 — lexical scoping and state flow of variables versus fields
 	registerSeq(seqSpec{
 		id: "C02",
-		rule: "explicit enumeration of all statement sequences up to length L (quick 6, thorough 7; sequences whose prefix is rejected at compile time are not extended, rejection being absorbing) over a 21-symbol alphabet of declarations (with/without initializer, self-referencing initializer), " +
+		rule: "explicit enumeration of all statement sequences up to length L (quick 6, thorough 7; sequences whose prefix is rejected at compile time are not extended, rejection being absorbing) over a 22-symbol alphabet of declarations (with/without initializer, self-referencing initializer), " +
 			"assignments (plain, nested in sub-expressions, chained), reads, block open/close with two names x,y and nesting <=3; every sequence is closed and executed by the real Interpret and by the reference evaluator " +
 			"(scope chain of maps). Compared: printed values, Block fields, compile-diagnostic class and position, runtime-error class and position. A state is a statement sequence (path in the reference model's transition system); every path is replayed on the implementation.",
 		sub: newRefSub("c02.seq"),
 		alpha: []gen.Sym{
 			both("var x"), both("var y = 1"), both("var x = 1"), both("var y = x"), both("var x = x + 1"), both("var y = (x = 2) + 1"),
+			// an assignment to the very name being declared, inside its initializer: it means the outer x (or a field, or nothing)
+			both("var x = 10 + (x = 3)"),
 			evalTop("x = 1"), evalTop("x = x + 1"), evalTop("y = x"), evalTop("x = (y = 2) + 1"), evalTop("y = y + 1"), evalTop("x = y = 3"),
 			both("print x"), both("print y"), both("print (x = 5) + x"),
 			inOnly("eval y = x"),
